@@ -496,6 +496,9 @@ func (bsc *BlipSyncContext) sendRevisionWithProperties(ctx context.Context, send
 
 			base.TracefCtx(ctx, base.KeySync, "Received response for sendRevisionWithProperties rev message %s/%s", base.UD(docID), revID)
 
+			// revNotStored is set when the peer answered with a server-side failure: the revision was neither stored nor
+			// refused, so its sequence stays outstanding and the checkpoint does not move past it (a later run sends it again)
+			revNotStored := false
 			if resp.Type() == blip.ErrorType {
 				bsc.replicationStats.SendRevErrorTotal.Add(1)
 				base.InfofCtx(ctx, base.KeySync, "error %s in response to rev: %s", resp.Properties["Error-Code"], respBody)
@@ -520,7 +523,10 @@ func (bsc *BlipSyncContext) sendRevisionWithProperties(ctx context.Context, send
 							bsc.replicationStats.SendRevErrorRejectedCount.Add(1)
 						} else {
 							bsc.replicationStats.SendRevErrorOtherCount.Add(1)
+							revNotStored = true
 						}
+					case "503":
+						revNotStored = true
 					}
 				}
 			} else {
@@ -529,7 +535,7 @@ func (bsc *BlipSyncContext) sendRevisionWithProperties(ctx context.Context, send
 
 			bsc.removeAllowedAttachments(docID, attMeta, activeSubprotocol)
 
-			if collectionCtx.sgr2PushProcessedSeqCallback != nil {
+			if collectionCtx.sgr2PushProcessedSeqCallback != nil && !revNotStored {
 				collectionCtx.sgr2PushProcessedSeqCallback(seq)
 			}
 		}(activeSubprotocol)
